@@ -241,4 +241,34 @@ def Dyn.setClass (T : FelixTable) (G : FelixGuards) (v : Str) (s : Dyn) (p : Nat
 def Dyn.programs (s : Dyn) (d : Nat) : Bool :=
   s.progIPIP.contains d || s.progVXLAN.contains d || s.progNoEncap.contains d
 
+/-! ## confd side dynamics (confd/pkg/backends/calico/client.go onUpdates → updateBGPConfigCache)
+
+The client caches the CURRENT default BGPConfiguration (`c.globalBGPConfig = v3res`, `nil` on a
+delete event); `processIPPools` reads the policy from that cache on every render.  A setting is
+`Option Str` (`none` = field absent); the cached resource is `Option (Option Str)` (`none` = no
+resource). -/
+
+inductive BgpEvent where
+  | set (v : Option Str)   -- KVNew / KVUpdated of BGPConfiguration "default"
+  | del                    -- KVDeleted
+deriving Repr, DecidableEq
+
+def confdStep (_ : Option (Option Str)) : BgpEvent → Option (Option Str)
+  | .set v => some v
+  | .del => none
+
+def confdRun (st : Option (Option Str)) (hist : List BgpEvent) : Option (Option Str) :=
+  hist.foldl confdStep st
+
+/-- The setting `clusterRoutePolicyFromBGPConfig` sees: no resource and absent field are alike. -/
+def confdSetting : Option (Option Str) → Option Str
+  | none => none
+  | some v => v
+
+/-- Verdict of the rendered IPv4 `calico_kernel_programming` filter for a pool: `processIPPools`
+emits the per-pool statements only when the node's `network_v4` is known; with no statement the
+template's final `accept;` applies. -/
+def birdKernelV4 (hasSubnet : Bool) (p : Policy) (ipip vxlan : Mode) : Bool :=
+  if hasSubnet then birdPrograms p ipip vxlan else true
+
 end CalicoVerif.C28
